@@ -16,9 +16,11 @@ def run(chk, replay=None):
         sc = json.load(open(replay))["replay"]["script"]
         pslib.run_and_report(chk, [sc], "replay", ("C12/",))
         return
-    for cfg, must in (("MC_OutBuf_ok", True), ("MC_OutBuf_encode_before_ready", False), ("MC_OutBuf_clear_on_full", False)):
+    for cfg, must in (("MC_OutBuf_ok", True), ("MC_OutBuf_encode_before_ready", False), ("MC_OutBuf_clear_on_full", False),
+                      ("MC_OutBuf_no_flusher", False), ("MC_OutBuf_kick_only_when_refused", False), ("MC_OutBuf_kick_unless_armed", False), ("MC_OutBuf_reach", False)):
         r = vlib.tlc("OutBuf", cfg + ".cfg", chk.wd, timeout=1200, coverage=must)
-        (chk.model_must_hold if must else chk.model_must_fail)(r, "OutBuf " + cfg + (": tap well-formed, nothing accepted is lost, buffer < HWM + max message; HWM=8, sizes {1,4,7,8,9}, 5 publishes, all credit patterns" if must else " (spec mutant)"))
+        (chk.model_must_hold if must else chk.model_must_fail)(r, "OutBuf " + cfg + (": tap well-formed, nothing accepted is lost or withheld, buffer < HWM + max message; HWM=8, sizes {1,4,7,8,9}, 5 publishes, all credit patterns, flusher task interleaved everywhere" if must else
+                                                                                     " (the pinned tree's mechanism: bytes only move on a publish)" if "no_flusher" in cfg else " (reachability companion)" if "reach" in cfg else " (spec mutant)"))
     scen, fam = 0, []
     for t in ("PUB", "XPUB"):
         for i in range(600 if thorough else 70):
@@ -26,7 +28,8 @@ def run(chk, replay=None):
     for t in ("PUB", "XPUB"):
         for k in (5, 100, 1500):
             for after in ("quiet", "other-topic"):
-                scen += 1; fam.append(pslib.c12_withheld_script(t, scen, k, after))
+                for between in (False, True):
+                    scen += 1; fam.append(pslib.c12_withheld_script(t, scen, k, after, between))
     for s in fam: chk.case((s["sock"], json.dumps(s["ops"])[:3000]), nontrivial=any(o["op"] == "credit" and o.get("k") is not None for o in s["ops"]))
     chk.sample({"kind": "back-pressure schedule", "sock": fam[0]["sock"], "ops": [(o["op"], o.get("c"), o.get("k")) for o in fam[0]["ops"]][:24]})
     pslib.run_and_report(chk, fam, "c12", ("C12/",))
